@@ -45,6 +45,23 @@ def sep_deg(ra1, dec1, ra2, dec2):
     return np.degrees(2 * np.arcsin(np.clip(np.linalg.norm(v1 - v2, axis=-1) / 2, 0, 1)))
 
 
+def handedness(wcs, w_, h_):
+    """toasty's convention: +1 (FITS-like) when, seen on the sky with north up and east left, the pixel
+    y axis points along +x cross ... i.e. the determinant of d(world)/d(pixel) is negative.  Computed
+    numerically around the reference pixel, independent of the CD/PC/CDELT bookkeeping."""
+    x0, y0 = wcs.wcs.crpix[0] - 1, wcs.wcs.crpix[1] - 1
+    ra, dec = wcs.all_pix2world([x0, x0 + 1e-3, x0], [y0, y0, y0 + 1e-3], 0)
+    if not (np.all(np.isfinite(ra)) and np.all(np.isfinite(dec))):
+        return None
+    cd = np.cos(np.radians(dec[0]))
+    dra = (np.array(ra[1:]) - ra[0] + 180) % 360 - 180
+    j = np.array([[dra[0] * cd, dra[1] * cd], [dec[1] - dec[0], dec[2] - dec[0]]])
+    det = np.linalg.det(j)
+    if det == 0:
+        return None
+    return 1 if det < 0 else -1
+
+
 def case(job):
     from toasty.image import Image, ImageDescription, ImageMode
 
@@ -63,8 +80,11 @@ def case(job):
         try:
             if kind == "image":
                 obj = Image.from_array(data.copy(), wcs=wcs.deepcopy(), default_format="fits")
-            else:
+            elif kind == "description":
                 obj = ImageDescription(mode=ImageMode.F32, shape=(h_, w_), wcs=wcs.deepcopy())
+            else:
+                # a data-less description of a colour image: shape (height, width, planes)
+                obj = ImageDescription(mode=ImageMode.RGB, shape=(h_, w_, 3), wcs=wcs.deepcopy())
             p0 = obj.get_parity_sign()
             ys, xs = np.mgrid[0:h_, 0:w_]
             ra0, dec0 = world(obj.wcs, xs.ravel(), ys.ravel())
@@ -76,6 +96,10 @@ def case(job):
             continue
         if p0 not in (1, -1) or p1 != -p0:
             bad("parity-not-negated", "parity %r before, %r after the flip" % (p0, p1))
+        # the reported sign is the handedness of the pixel grid on the sky (independent numerical Jacobian)
+        hp = handedness(wcs, w_, h_)
+        if hp is not None and p0 != hp:
+            bad("parity-sign-wrong", "get_parity_sign() = %r but the pixel grid's handedness on the sky gives %r" % (p0, hp))
         ok = np.isfinite(ra0) & np.isfinite(ra1)
         if ok.any():
             d = sep_deg(ra0[ok], dec0[ok], ra1[ok], dec1[ok])
@@ -135,7 +159,9 @@ def run(tier, seed):
             continue  # outside the hemisphere a SIN projection can represent
         if tier == "quick" and sz == (64, 48) and (th not in (0, 45, 250) or ck == "outside-b"):
             continue
-        for kind in ("image", "description"):
+        for kind in ("image", "description", "description-rgb"):
+            if kind == "description-rgb" and (sz[0] == sz[1] or sk != 0.0):
+                continue
             cases.append((proj, th, sc, sk, par_, ck, cv, sz, kind))
     n = par.ncores() * 2
     par.pmap(case, [cases[i::n] for i in range(n)], rep)
